@@ -92,7 +92,8 @@ type respClient struct {
 	Logical bool
 	// Transients: offsets in the stream the server sends (from its first byte) at which one Read fails with a
 	// timeout error although the stream goes on.
-	Transients []int
+	Transients   []int
+	TransientEOF bool
 	// Render: the consumer uses what it receives the way a driver does: String() of every package and of every
 	// row / parameter value (direct calls: fmt would recover a panic).
 	Render bool
@@ -220,6 +221,7 @@ func runResp(cfg simrt.Config, d respDelivery, c respClient) *respResult {
 		cn.ReadSizes = c.ReadSizes
 		if len(c.Transients) > 0 && cn.ID == 0 {
 			cn.Transients = append([]int{}, c.Transients...)
+			cn.TransientEOF = c.TransientEOF
 		}
 	}
 	if c.Twin {
